@@ -437,6 +437,9 @@ func (g *lsnGen) next() lsnStep {
 		return lsnStep{t: e.vnow() + lib.Pick(r, 10*ms, int64(time.Minute), hour, 5*hour)}
 	}
 	now := e.vnow()
+	if g.style == 1 && len(g.first) > 0 && now > e.keys[e.cookies[g.first[0]].id]+validity+hour {
+		g.style = 0 // the lone client's cookies have expired: it is refused from now on; go on with everybody
+	}
 	for try := 0; try < 200; try++ {
 		var st lsnStep
 		st.lsn = r.Intn(2)
